@@ -395,6 +395,10 @@ void base_str<CharT>::append(const CharT* text)
     {
         len = length();
         len += base_str::len(text);
+        if (!len) {
+            // empty + empty: nothing to append, and there may be no buffer to append to
+            return;
+        }
         EnsureAlloced(len + 1);
 
         base_str::cat(m_data->data(), text);
@@ -425,6 +429,10 @@ void base_str<CharT>::append(const base_str& text)
 
     len = length();
     len += text.length();
+    if (!len) {
+        // empty + empty: nothing to append, and there may be no buffer to append to
+        return;
+    }
     EnsureAlloced(len + 1);
 
     base_str::cat(m_data->data(), text.c_str());
